@@ -97,6 +97,14 @@ def flatten(asl, notes=None):
         out[name] = r
     for n, s in asl["States"].items():
         one(n, s)
+    for n, r in out.items():
+        if not r["end"] and not r["next"]:
+            raise Unsupported("a state with neither Next nor End")
+        for x in (r["next"], r["catchnext"], r["proc"]) + tuple(r["branches"]):
+            if x and x not in out:
+                raise Unsupported("a transition to a state that does not exist")
+    if asl.get("StartAt") not in out:
+        raise Unsupported("StartAt names no state")
     # a machine that can loop has no finite model here (the history counter grows for ever)
     nxt = {n: [x for x in (r["next"], r["catchnext"]) if x] for n, r in out.items()}
     seen, stack = set(), set()
